@@ -69,3 +69,4 @@ func FSEnterTemp(tag string) {
 }
 func FSMkdir(p string) { os.MkdirAll(p, 0755) }
 func FSTouch(p string) { os.WriteFile(p, []byte("x"), 0644) }
+func FSSymlink(target, p string) { os.Symlink(target, p) }
